@@ -335,47 +335,52 @@ def run(ctx, rep):
     K.share(ctx, rep, "c09", lambda o: o.rule == "R09.7", "R02.5", floor=2)
 
     # ------------------------------------------------------------------ R02.6
+    # buffiter: model evaluation - a scripted remote iterator answers each HANDLE_BUFFITER request with the next `count` elements
+    from .. import miniinterp as MIb
     fb = ctx.func("rpyc.utils.helpers.buffiter")
-    g = ctx.cfg(fb, raises="default")
-    rep.analysed(fb, g)
-    bp = A.params(fb.node)
-    whiles = [n for n in A.walk(fb.node) if isinstance(n, ast.While)]
-    rep.floor("R02.6", "fetch loops in buffiter", len(whiles), 1)
-    w = whiles[0]
-    fetch = [n for n in A.walk(w) if isinstance(n, ast.Assign) and any(
-        (A.call_name(c) or "").endswith("syncreq") for c in A.calls(n.value))]
-    rep.floor("R02.6", "chunk fetches in buffiter", len(fetch), 1)
-    chunk = fetch[0].targets[0].id
-    brks = [n for n in A.walk(w) if isinstance(n, (ast.Break, ast.Return))]
-    okb = len(brks) == 1
-    if okb:
-        par = brks[0]._parent
-        okb = isinstance(par, ast.If) and A.src(par.test) in ("not %s" % chunk, "len(%s) == 0" % chunk)
-    rep.ob("R02.6", "buffiter: the loop ends only when an empty chunk was fetched", okb,
-           "`if not %s: break` is the only exit" % chunk if okb else
-           "buffiter can stop (or never stop) on something other than an empty chunk: elements are lost when a chunk is short",
-           ctx.loc(brks[0]) if brks else ctx.loc(w))
-    fors = [n for n in A.walk(w) if isinstance(n, ast.For) and A.src(n.iter) == chunk]
-    oky = len(fors) == 1 and len(fors[0].body) == 1 and isinstance(fors[0].body[0], ast.Expr) and \
-        isinstance(fors[0].body[0].value, ast.Yield) and A.src(fors[0].body[0].value.value) == A.src(fors[0].target)
-    rep.ob("R02.6", "buffiter: every element of the fetched chunk is yielded, in order", oky,
-           "for elem in %s: yield elem" % chunk if oky else "the chunk is not yielded element by element in order",
-           ctx.loc(fors[0]) if fors else ctx.loc(w))
-    cvar = None
-    for c in A.calls(fetch[0].value):
-        if (A.call_name(c) or "").endswith("syncreq") and len(c.args) >= 3 and isinstance(c.args[2], ast.Name):
-            cvar = c.args[2].id
-    cnt_updates = [n for n in A.walk(w) if isinstance(n, ast.Assign) and isinstance(n.targets[0], ast.Name)
-                   and n.targets[0].id == cvar]
-    okc = len(cnt_updates) == 1 and isinstance(cnt_updates[0].value, ast.Call) and A.call_name(cnt_updates[0].value) == "min" \
-        and bp[2] in A.names_loaded(cnt_updates[0].value)
-    rep.ob("R02.6", "buffiter: the chunk size is clamped by max_chunk", okc, "`%s`" % A.norm(cnt_updates[0]) if okc else
-           "the requested chunk size is not clamped by max_chunk", ctx.loc(cnt_updates[0]) if cnt_updates else ctx.loc(w), kind="site")
-    it = [n for n in A.walk(fb.node) if isinstance(n, ast.Assign) and A.src(n.value) == "iter(%s)" % bp[0]]
-    okit = len(it) == 1 and any(A.src(c.args[0]) == it[0].targets[0].id for c in A.calls(fetch[0].value) if c.args)
-    rep.ob("R02.6", "buffiter: one remote iterator is created and every chunk is taken from it", okit,
-           "it = iter(obj); syncreq(it, HANDLE_BUFFITER, count)" if okit else "chunks are not drawn from a single iterator",
-           fb.loc)
+    rep.analysed(fb)
+    HB = ctx.const("rpyc.core.consts", "HANDLE_BUFFITER")
+    bad_b = []
+    try:
+        for total in (0, 1, 9, 10, 11, 20, 57):
+            for chunk_, maxc_, fact_ in ((10, 1000, 2), (1, 4, 2), (3, 3, 1), (7, 5, 3)):
+                src_ = list(range(total))
+                pos_ = [0]
+                reqs = []
+
+                def syncreq_(it_, hid_, cnt_, pos_=pos_, src_=src_, reqs=reqs):
+                    reqs.append((it_, hid_, cnt_))
+                    out_ = tuple(src_[pos_[0]:pos_[0] + cnt_])
+                    pos_[0] += len(out_)
+                    return out_
+                iters = []
+
+                def iter_(o_, iters=iters):
+                    iters.append(o_)
+                    return ("iterator-of", o_)
+                extra_b = {"__calls__": {"syncreq": syncreq_, "iter": iter_}, "__values__": {"consts.HANDLE_BUFFITER": HB},
+                           "__globals__": {"HANDLE_BUFFITER": HB}, "__max_iter__": 500}
+                extra_b["__global_lookup__"] = K.module_function_lookup(ctx, fb.module, extra_b, skip=("syncreq", "iter"))
+                got = MIb.call_function(fb.node, ["OBJ", chunk_, maxc_, fact_], extra_b)
+                if got != src_:
+                    bad_b.append("%d elements, chunk=%d max=%d factor=%d: yields %d element(s)%s" % (
+                        total, chunk_, maxc_, fact_, len(got), "" if got == src_[:len(got)] else " out of order"))
+                elif iters != ["OBJ"] or any(r_[0] != ("iterator-of", "OBJ") or r_[1] != HB for r_ in reqs) or \
+                        any(r_[2] > max(maxc_, chunk_) or r_[2] < 1 for r_ in reqs):
+                    bad_b.append("%d elements, chunk=%d max=%d factor=%d: requests %s on %d iterator(s)" % (
+                        total, chunk_, maxc_, fact_, [r_[2] for r_ in reqs], len(iters)))
+        try:
+            MIb.call_function(fb.node, ["OBJ", 10, 1000, 0], {"__calls__": {"syncreq": lambda *a: (), "iter": lambda o_: o_},
+                                                             "__globals__": {"HANDLE_BUFFITER": HB}})
+            bad_b.append("factor=0 is accepted (the chunk size would drop to 0 and the iteration would stop at once)")
+        except MIb.Raised as r_:
+            if r_.name != "ValueError":
+                bad_b.append("factor=0 raises %s" % r_.name)
+        rep.ob("R02.6", "buffiter: yields every element of the remote iterator once, in order, from one iterator, in bounded chunks",
+               not bad_b, "7 lengths x 4 chunk settings evaluated on a scripted iterator" if not bad_b else "; ".join(bad_b[:3]),
+               fb.loc, kind="table")
+    except (AnalysisError, MIb.Raised) as e_:
+        rep.undecided("R02.6", "buffiter", str(e_))
     hb = ctx.func(K.CONN + "._handle_buffiter")
     hp = A.params(hb.node)
     okh = any(isinstance(n, ast.Return) and A.src(n.value) == "tuple(itertools.islice(%s, %s))" % (hp[1], hp[2])
